@@ -115,7 +115,13 @@ fn run_conc(args: &[String]) -> i32 {
         }
         let rs = seed.wrapping_mul(1_000_003).wrapping_add(r);
         ctx.fails.clear();
-        if let Some(v) = run_workload(&name, rs, &mut ctx, &mut st) {
+        let mut found = run_workload(&name, rs, &mut ctx, &mut st);
+        // a verdict of the property under check has priority over a harness problem of the same run
+        let has_target = found.iter().any(|v| v.prop != "harness" && (v.prop == prop || prop == "all"));
+        if has_target {
+            found.retain(|v| v.prop != "harness");
+        }
+        for v in found {
             if v.prop == "harness" {
                 harness.push(format!("{}: {} (run seed {})", v.pred, v.detail, rs));
                 if harness.len() > 6 {
@@ -134,6 +140,9 @@ fn run_conc(args: &[String]) -> i32 {
             } else {
                 *other.entry(format!("{}/{}", v.prop, v.pred)).or_insert(0) += 1;
             }
+        }
+        if harness.len() > 6 || viols.len() >= 3 {
+            break;
         }
     }
     let ms = t0.elapsed().as_millis() as u64;
